@@ -276,20 +276,21 @@ def r02c(ctx):
     a = ctx.analysis(f)
     T = a.T
     npar = T.mk('param', f['params'][0]['n'])
-    r = None
-    for nid, ev in a.all_events('call'):
-        if ev[1] == 'tmcg_mpz_srandom_mod' and ev[2] and ev[2][0] == npar:
-            r = T.mk('callr', 'tmcg_mpz_srandom_mod', npar)
+    # the fill is (R + i) mod n for some offset term R; the returned value is (n - R) mod n for the same R
     n += 1
-    okp = False
+    R = None
     for nid, ev in a.all_events('mcall'):
-        if ev[1].endswith('::push_back') and r is not None:
+        if ev[1].endswith('::push_back'):
             v = ev[3][0]
             vn = T.node(v)
             if vn[0] == 'op' and vn[1] == '%' and vn[3] == npar:
                 s = T.node(vn[2])
-                if s[0] == 'op' and s[1] == '+' and r in (s[2], s[3]) and any(T.op(x) == 'iv' for x in (s[2], s[3])):
-                    okp = True
+                if s[0] == 'op' and s[1] == '+':
+                    ivs = [x for x in (s[2], s[3]) if T.op(x) == 'iv']
+                    oth = [x for x in (s[2], s[3]) if T.op(x) != 'iv']
+                    if len(ivs) == 1 and len(oth) == 1:
+                        R = oth[0]
+    okp = R is not None
     (ctx.ok if okp else ctx.bad)('R02c', 'R02c:random_rotation:fill', 'pi[i] = (r + i) mod n' if okp else 'rotation is not filled with (r + i) mod n', f)
     n += 1
     okr = False
@@ -298,9 +299,9 @@ def r02c(ctx):
             vn = T.node(val)
             if vn[0] == 'op' and vn[1] == '%' and vn[3] == npar:
                 s = T.node(vn[2])
-                if s[0] == 'op' and s[1] == '-' and s[2] == npar and s[3] == r:
+                if s[0] == 'op' and s[1] == '-' and s[2] == npar and s[3] == R:
                     okr = True
-    (ctx.ok if okr else ctx.bad)('R02c', 'R02c:random_rotation:offset', 'returned offset is (n - r) mod n' if okr else 'returned rotation offset is not (n - r) mod n', f)
+    (ctx.ok if okr else ctx.bad)('R02c', 'R02c:random_rotation:offset', 'returned offset is (n - r) mod n' if okr else 'returned rotation offset is not (n - r) mod n for the r used to fill', f)
     # Fisher-Yates: cells are written only by the identity fill and by a swap of two cells
     f = prog.fn('random_permutation_fast', 0)
     a = ctx.analysis(f)
